@@ -567,6 +567,7 @@ theorem Closed.createNode_all (hP : Closed g dec P) : ∀ fuel,
           | floatList n => exact hP.bind _ _ (h0.of_choiceIdx _) fun _ => hP.pure _
           | depIntRangeLo f hi => exact hP.throwE _
           | depIntRangeHi lo f => exact hP.throwE _
+          | depIntRangeSpan fw flo => exact hP.throwE _
           | depListSize f => exact hP.throwE _
           | depVarFrom f => exact hP.throwE _
     · intro n prods ctx
